@@ -59,12 +59,9 @@ Definition check_default (reg : registry) (c : string * jv) : bool :=
   end.
 
 (* build, store, reload: (ctor, input, stored settings minus default dump, outcome of from_dict) *)
-Definition reload_class (c : ctor) (doc : jv) : result string :=
+Definition reload_class (reg : registry) (c : ctor) (doc : jv) : result string :=
   match doc with
-  | JObj kvs => match c with
-                | CDailyModel _ => target_class (CDailyModel "current") (InDict kvs)
-                | _ => target_class c (InDict kvs)
-                end
+  | JObj kvs => target_class (reload_ctor reg c kvs) (InDict kvs)
   | _ => Reject RCrash
   end.
 Definition check_stored (reg : registry) (c : ctor * input * list (list string * jv) * expect) : bool :=
@@ -74,7 +71,7 @@ Definition check_stored (reg : registry) (c : ctor * input * list (list string *
       | Accept s, Accept cls =>
           let doc := stored_settings ct s in
           match construct_class reg cls [] with
-          | Accept s0 => diff_eqb (jdiff [] doc (dump s0)) sdiff && outcome_ok reg (reload_class ct doc) (reload reg ct doc) ex
+          | Accept s0 => diff_eqb (jdiff [] doc (dump s0)) sdiff && outcome_ok reg (reload_class reg ct doc) (reload reg ct doc) ex
           | Reject _ => false
           end
       | _, _ => false
